@@ -1310,6 +1310,9 @@ class Verifier(Engine):
         return list(con.params.keys()), {}
 
     def apply_contract(self, con, selfv, args, kwargs, callee_label=None, clsval=None):
+        if not hasattr(self, "applied_contracts"):
+            self.applied_contracts = set()
+        self.applied_contracts.add(con.target)     # every contract used in place of a body (evidence: trusted base / dependencies)
         label = callee_label or con.short
         names, defaults = self.contract_param_names(con, selfv)
         env = {}
